@@ -11,6 +11,9 @@
    them with finite tables (Model/C04_Check.v).  tan(divergence) and pi enter as plain numbers
    (fields b_tx, b_ty, k_pi): the code computes tan(DEGREES_TO_RADIANS * divergence) with libm.
 
+   [Qred] (reduction of a fraction to lowest terms; the value is unchanged) appears where intermediate
+   fractions would otherwise grow during evaluation; it has no counterpart in the code.
+
    A plasma species is a record of *functions* (density, temperature, bulk velocity of a point in
    plasma coordinates, stopping coefficient of (energy, density, temperature)): nothing in the model
    or in the theorems depends on the form of these functions. *)
